@@ -2,6 +2,7 @@
 
 IR (plain tuples, JSON-able):
   expr  := ["v", name] | ["c", int] | ["b", op, e1, e2]        op in + - * < == !=
+         | ["sum", v, k, body, form]   sum([body for v in range(k)]) (form "list") / sum(body for v in range(k)) ("gen")
   stmt  := ["assign", x, e] | ["aug", x, op, e] | ["print", e] | ["if", c, body, orelse]
          | ["while", c, body, orelse] | ["for", x, e, body, orelse]  (for x in range(e); orelse = else-clause)
          | ["return", e] | ["pass"] | ["break"] | ["continue"]
@@ -16,7 +17,7 @@ OPNAME = {"+": "Add", "-": "Sub", "*": "Mul", "<": "Lt", "==": "Eq", "!=": "Ne"}
 ASTOP = {ast.Add: "+", ast.Sub: "-", ast.Mult: "*", ast.Lt: "<", ast.Eq: "==", ast.NotEq: "!="}
 
 # interning of identifiers: the collector also sees the names `print` and `range`
-NAMES = ["print", "range", "self", "a", "b", "x", "y", "z", "w", "i", "j"]
+NAMES = ["print", "range", "self", "a", "b", "x", "y", "z", "w", "i", "j", "sum", "v"]
 IDX = {n: k for k, n in enumerate(NAMES)}
 PARAMS = ["a", "b"]
 LOCALS = ["x", "y", "z", "w"]
@@ -30,8 +31,21 @@ class Gen:
         self.budget = 0
         self.vars = []
 
+    def comp(self):
+        """A comprehension: the loop variable is sometimes a name of the function (shadowing), the range is a
+        constant or a parameter (small), the body mentions the loop variable and other names."""
+        r = self.rng
+        v = r.choice(["i", "j"] + self.vars) if r.random() < 0.7 else r.choice(self.vars)
+        k = ["c", r.choice([0, 1, 2, 3])] if r.random() < 0.5 else ["v", r.choice(self.params)]
+        body = ["b", r.choice(["+", "*", "-"]), ["v", v], ["v", r.choice(self.vars)] if r.random() < 0.7 else ["c", 2]]
+        if body[1] == "*" and body[3][0] == "v":
+            body[1] = "+"
+        return ["sum", v, k, body, r.choice(["list", "gen"])]
+
     def expr(self, depth=0):
         r = self.rng
+        if depth <= 1 and r.random() < 0.06:
+            return self.comp()
         k = r.random()
         if depth >= 2 or k < 0.45:
             if r.random() < 0.72:
@@ -164,6 +178,9 @@ def strip_returns(ss):
 
 # ----------------------------------------------------------------------------- renderer
 def r_expr(e, top=True):
+    if e[0] == "sum":
+        inner = "%s for %s in range(%s)" % (r_expr(e[3]), e[1], r_expr(e[2]))
+        return "sum([%s])" % inner if e[4] == "list" else "sum(%s)" % inner
     if e[0] == "v":
         return e[1]
     if e[0] == "c":
@@ -252,6 +269,15 @@ def a_expr(n):
         return ["b", ASTOP[type(n.op)], a_expr(n.left), a_expr(n.right)]
     if isinstance(n, ast.Compare) and len(n.ops) == 1 and type(n.ops[0]) in ASTOP:
         return ["b", ASTOP[type(n.ops[0])], a_expr(n.left), a_expr(n.comparators[0])]
+    if isinstance(n, ast.Call) and isinstance(n.func, ast.Name) and n.func.id == "sum" and len(n.args) == 1 \
+            and not n.keywords and isinstance(n.args[0], (ast.ListComp, ast.GeneratorExp)):
+        c = n.args[0]
+        g = c.generators
+        if len(g) == 1 and not g[0].ifs and not g[0].is_async and isinstance(g[0].target, ast.Name) \
+                and isinstance(g[0].iter, ast.Call) and isinstance(g[0].iter.func, ast.Name) \
+                and g[0].iter.func.id == "range" and len(g[0].iter.args) == 1 and not g[0].iter.keywords:
+            return ["sum", g[0].target.id, a_expr(g[0].iter.args[0]), a_expr(c.elt),
+                    "list" if isinstance(c, ast.ListComp) else "gen"]
     raise Unsupported(ast.dump(n))
 
 
@@ -404,6 +430,8 @@ def g_var(x):
 
 
 def g_expr(e):
+    if e[0] == "sum":
+        return "(EComp %s %s %s)" % (g_var(e[1]), g_expr(e[2]), g_expr(e[3]))
     if e[0] == "v":
         return "(EVar %s)" % g_var(e[1])
     if e[0] == "c":
